@@ -279,6 +279,10 @@ class BodyError(Exception):
     pass
 
 
+class BodyExit(BaseException):
+    """leaving the block the way SystemExit / KeyboardInterrupt / pytest's outcomes do: not an Exception subclass"""
+
+
 def run_patch_case(tmp, cid, kinds, extras, body_raises, nested=False):
     import fakesnow
     import fakesnow.instance
@@ -302,9 +306,9 @@ def run_patch_case(tmp, cid, kinds, extras, body_raises, nested=False):
                 with fakesnow.patch([pw.names[i] for i in extras]):
                     inside = pw.observe()
                     if body_raises:
-                        raise BodyError()
+                        raise (BodyExit() if cid % 2 else BodyError())
                 res = 3
-            except BodyError:
+            except (BodyError, BodyExit):
                 res = 4
             except AssertionError as e:
                 res = 0 if "already patched" in str(e) else 2
